@@ -932,6 +932,17 @@ def current_rank() -> int | None:
     return getattr(_tls, 'rank', None)
 
 
+def group_ranks_of(g: Any, size: int) -> tuple[int, ...]:
+    if g is None:
+        return tuple(range(size))
+    return tuple(getattr(g, 'ranks', ()))
+
+
+def per_node(size: int) -> int:
+    """Processes per node of the simulated two-node launch."""
+    return max(1, (size + 1) // 2)
+
+
 def _install_patches() -> None:
     global _PATCHED
     if _PATCHED:
@@ -1089,6 +1100,19 @@ def _install_patches() -> None:
             {'object_list': object_list, 'obj': obj}, False,
         )
 
+    # the launcher's node-local rank: the simulated world is laid out as a
+    # two-node launch (ranks 0..n-1 on node 0, the rest on node 1), so the
+    # node-local rank differs from the global rank on the second node
+    _ORIG['get_node_local_rank'] = getattr(dist, 'get_node_local_rank', None)
+
+    def get_node_local_rank(fallback_rank: Any = None) -> int:
+        w = _w()
+        if w is None:
+            return _ORIG['get_node_local_rank'](fallback_rank)
+        return _tls.rank % per_node(w.size)
+
+    if _ORIG['get_node_local_rank'] is not None:
+        dist.get_node_local_rank = get_node_local_rank
     dist.is_initialized = is_initialized
     dist.is_available = is_available
     dist.get_rank = get_rank
@@ -1208,9 +1232,24 @@ class SoloWorld:
         w.collective = collective  # type: ignore
         _WORLD = w
         _tls.rank = self.rank
+        # environment of a two-node torchrun launch
+        import os
+        n = per_node(self.size)
+        self._env = {k: os.environ.get(k) for k in
+                     ('RANK', 'LOCAL_RANK', 'WORLD_SIZE', 'LOCAL_WORLD_SIZE')}
+        os.environ.update({'RANK': str(self.rank),
+                           'LOCAL_RANK': str(self.rank % n),
+                           'WORLD_SIZE': str(self.size),
+                           'LOCAL_WORLD_SIZE': str(n)})
         return self
 
     def __exit__(self, *a: Any) -> None:
         global _WORLD
+        import os
+        for k, val in self._env.items():
+            if val is None:
+                os.environ.pop(k, None)
+            else:
+                os.environ[k] = val
         _WORLD = None
         _tls.rank = None
